@@ -612,6 +612,26 @@ pub fn run(ctx: &Ctx) -> Report {
       report.fail("property", "crash:deleted-working-directory", case, format!("code {:?} signal {:?}: {}", o.status.code(), o.status.signal(), String::from_utf8_lossy(&o.stderr).lines().find(|l| l.contains("panicked")).unwrap_or("")));
     }
   }
+  // ---- the reader of standard output has gone away before anything is written: a failure to report (exit status 1),
+  // or nothing to write at all (0) - not a death by signal (bash shows a child killed by signal N as 128+N)
+  {
+    let sbx = Sandbox::new(&ctx.work, "c08p");
+    let files: Vec<B> = (0..1500).map(|i| B::dict(vec![("length", B::Int(1)), ("path", B::List(vec![B::s(&format!("directory-{}", i % 7)), B::s(&format!("file-number-{i}"))]))])).collect();
+    sbx.write("big.torrent", &B::dict(vec![("announce", B::s("http://t.example/a")), ("info", B::dict(vec![("name", B::s("data")), ("piece length", B::Int(16384)), ("pieces", B::Bytes(vec![1; 20])), ("files", B::List(files))]))]).encode());
+    sbx.mkdir("data");
+    for sub in [vec!["torrent", "show", "--input", "big.torrent"], vec!["torrent", "show", "--json", "--input", "big.torrent"], vec!["torrent", "link", "--input", "big.torrent"], vec!["--unstable", "torrent", "dump", "--input", "big.torrent"],
+      vec!["torrent", "verify", "--input", "big.torrent", "--content", "data"], vec!["torrent", "show", "--input", "-"]] {
+      let script = "\"$0\" \"$@\" < big.torrent | (exec 0<&-; sleep 0.3); exit ${PIPESTATUS[0]}";
+      let o = std::process::Command::new("bash").arg("-c").arg(script).arg(&ctx.imdl).args(&sub).current_dir(&sbx.root).env("TERM", "dumb").output();
+      let Ok(o) = o else { report.hit("skipped:no-bash"); continue };
+      let case = json!({"reader_of_standard_output_gone": true, "args": sub});
+      report.case(Some(fnv(case.to_string().as_bytes())));
+      report.hit("state:reader-gone");
+      if !(o.status.code() == Some(0) || o.status.code() == Some(1)) {
+        report.fail("property", "crash:reader-gone", case, format!("exit status as bash saw it {:?} (128+13 = killed by SIGPIPE): {}", o.status.code(), String::from_utf8_lossy(&o.stderr).lines().last().unwrap_or("")));
+      }
+    }
+  }
   report
 }
 
